@@ -42,6 +42,8 @@ struct Hg {
     max_ticks: usize,
     /// clones of the inner service used for hedges are not ready until the explorer says so
     held_readiness: bool,
+    /// the executor may poll the woken call late (up to this many ticks pass first)
+    late_ticks: usize,
 }
 
 struct X {
@@ -66,13 +68,16 @@ impl Scenario for Hg {
         "C12"
     }
     fn label(&self) -> String {
-        format!("hedge max_hedged_attempts={} delay={:?}{}", self.max, self.delay, if self.held_readiness { " hedge-clones-not-ready-until-released" } else { "" })
+        format!("hedge max_hedged_attempts={} delay={:?}{}", self.max, self.delay, if self.held_readiness { " hedge-clones-not-ready-until-released" } else if self.late_ticks > 0 { " late-polls" } else { "" })
     }
     fn callers(&self) -> usize {
         1
     }
     fn drops_enabled(&self) -> bool {
         false
+    }
+    fn late_ticks(&self) -> usize {
+        self.late_ticks
     }
     fn init(&self, w: &mut World) -> X {
         let b = HedgeLayer::builder().max_hedged_attempts(self.max);
@@ -279,11 +284,17 @@ fn configs(tier: Tier) -> Vec<Hg> {
     let mut v = vec![];
     for max in [1usize, 2, 3] {
         for delay in [Delay::Fixed20, Delay::Immediate, Delay::Dyn20_10, Delay::Dyn20_0, Delay::Dyn0_20] {
-            v.push(Hg { max, delay, max_ticks: tier.pick(6, 8), held_readiness: false });
+            v.push(Hg { max, delay, max_ticks: tier.pick(6, 8), held_readiness: false, late_ticks: 0 });
+        }
+        if max == 3 {
+            // a late executor: the woken call is polled up to two ticks late
+            for delay in [Delay::Fixed20, Delay::Dyn20_10] {
+                v.push(Hg { max, delay, max_ticks: tier.pick(7, 9), held_readiness: false, late_ticks: 2 });
+            }
         }
         if max >= 2 {
             for delay in [Delay::Fixed20, Delay::Immediate] {
-                v.push(Hg { max, delay, max_ticks: tier.pick(5, 7), held_readiness: true });
+                v.push(Hg { max, delay, max_ticks: tier.pick(5, 7), held_readiness: true, late_ticks: 0 });
             }
         }
     }
